@@ -10,7 +10,7 @@ From Coq Require Import String List Arith ZArith Bool.
 From MomoCommon Require GenPrelude.
 From C05 Require Import ArrayShift ArrayModel ShiftProofs FilterProofs ArrayProofs SegProofs.
 From C05 Require GrowProofs Gen_Grow GuardProofs Gen_GuardsShifter Gen_GuardsArray Gen_GuardsSeg.
-From C05 Require Gen_ShiftLoops ShiftLoopProofs Gen_IndexOf IndexOfProofs InsertGlue Gen_ArrayFacts FactsProofs.
+From C05 Require Gen_ShiftLoops ShiftLoopProofs Gen_IndexOf IndexOfProofs InsertGlue Gen_ArrayFacts FactsProofs Gen_ShiftLoopsSeg SameCode.
 Import ListNotations.
 
 (* ArrayShifter::InsertNogrow(array, index, count, const Item& item): for EVERY array contents l (elements may even be
@@ -643,3 +643,74 @@ Theorem C05_seg_shrink_clamp_spec :
     (mCount <= Gen_GuardsSeg.SegShrink_clamp segcap mCount capacity <= segcap)%Z.
 Proof. exact GuardProofs.seg_shrink_clamp_spec. Qed.
 Print Assumptions C05_seg_shrink_clamp_spec.
+
+(* ================= SegmentedArray's own instantiation of the shifter ================= *)
+(* ArrayShifter<SegmentedArray<T>>, translated separately from ITS instantiation, is convertible with the Array instantiation: same code *)
+Theorem C05_shift_same_code :
+  Gen_ShiftLoopsSeg.ShiftRemove = Gen_ShiftLoops.ShiftRemove /\ Gen_ShiftLoopsSeg.ShiftInsert = Gen_ShiftLoops.ShiftInsert.
+Proof. exact SameCode.shift_same_code. Qed.
+Print Assumptions C05_shift_same_code.
+
+(* ... so the loop theorems are claimed for SegmentedArray::Insert / Remove too *)
+Theorem C05_seg_shift_insert_spec :
+  forall (items : Z -> Z) (cnt cap_ index count it : Z),
+    (0 <= index)%Z -> (index <= cnt)%Z -> (0 <= count)%Z -> (cnt + count <= cap_)%Z -> (cap_ < ShiftLoopProofs.U64 - 1)%Z ->
+    (it < index \/ cnt + count <= it)%Z ->
+    exists items', Gen_ShiftLoopsSeg.ShiftInsert items cnt cap_ index count it = GenPrelude.Ok (tt, items', (cnt + count)%Z) /\
+      (forall j, (j < index)%Z -> items' j = items j) /\
+      (forall j, (index <= j < index + count)%Z -> items' j = items it) /\
+      (forall j, (index + count <= j < cnt + count)%Z -> items' j = items (j - count)%Z) /\
+      (forall j, (cnt + count <= j)%Z -> items' j = items j).
+Proof. exact SameCode.seg_shift_insert_spec. Qed.
+Print Assumptions C05_seg_shift_insert_spec.
+
+Theorem C05_seg_shift_remove_spec :
+  forall (items : Z -> Z) (cnt cap_ index count : Z),
+    (0 <= index)%Z -> (0 <= count)%Z -> (index + count <= cnt)%Z -> (cnt <= cap_)%Z -> (cap_ < ShiftLoopProofs.U64 - 1)%Z ->
+    exists items', Gen_ShiftLoopsSeg.ShiftRemove items cnt cap_ index count = GenPrelude.Ok (tt, items', (cnt - count)%Z) /\
+      (forall j, (j < index)%Z -> items' j = items j) /\
+      (forall j, (index <= j < cnt - count)%Z -> items' j = items (j + count)%Z) /\
+      (forall j, (cnt <= j)%Z -> items' j = items j).
+Proof. exact SameCode.seg_shift_remove_spec. Qed.
+Print Assumptions C05_seg_shift_remove_spec.
+
+(* ================= Array::AddBack(const Item&) executed from the AST facts ================= *)
+(* pvAddBackNogrow / pvAddBackGrow(const Item&, true_type) statement lists (Relocate = a cell move; after pvGrow a reference into the old buffer
+   reads poison): item = ANY element or an external object, full or not: the appended cell holds the PRE-CALL value, the rest is untouched *)
+Theorem C05_gen_add_back_from_facts_spec :
+  forall (growOnReserve : bool) (items : Z -> Z) (cnt cap_ it tmp : Z),
+    (0 <= cnt)%Z -> (cnt <= cap_)%Z -> (cnt + 1 < InsertGlue.U64)%Z -> (InsertGlue.U64 <= tmp)%Z -> ((0 <= it < cnt)%Z \/ (InsertGlue.U64 <= it)%Z) ->
+    exists items' cap', FactsProofs.gen_add_back_f growOnReserve items cnt cap_ it tmp = GenPrelude.Ok (items', (cnt + 1)%Z, cap') /\
+      (cnt + 1 <= cap')%Z /\ items' cnt = items it /\ (forall j, (0 <= j < cnt)%Z -> items' j = items j).
+Proof. exact FactsProofs.gen_add_back_f_spec. Qed.
+Print Assumptions C05_gen_add_back_from_facts_spec.
+
+(* ================= Array::Shrink clamp (GENERATED, internalCapacity symbolic) and the forwards of stdish::vector (AST facts) ================= *)
+Theorem C05_array_shrink_clamp_is_the_model :
+  forall ic cnt capa n : nat,
+    Gen_GuardsArray.Shrink_clamp (Z.of_nat ic) (Z.of_nat cnt) (Z.of_nat capa) (Z.of_nat n) =
+      Z.of_nat (if (capa <=? n) || (capa =? ic) then capa else if n <? cnt then cnt else n).
+Proof. exact GuardProofs.array_shrink_clamp_is_the_model. Qed.
+Print Assumptions C05_array_shrink_clamp_is_the_model.
+
+(* stdish::vector::insert(where, n, v) forwards to Array::Insert(where - cbegin(), n, v), erase(first, last) to Remove(first - cbegin(),
+   last - first), push_back to AddBack, resize to SetCount, assign(n, v) builds a new Array from v and move-assigns it, ...; Array::Reserve /
+   Shrink have the statement structure the hand model mirrors *)
+Theorem C05_facts_shape_forwards :
+  Gen_ArrayFacts.array_reserve_stmts = ["if (capacity > GetCapacity()) { pvGrow(capacity, reserve) }"]%string /\
+  Gen_ArrayFacts.array_shrink_stmts =
+    ["decl initCapacity = GetCapacity()"; "if ((initCapacity <= capacity) || (initCapacity == internalCapacity)) { return }";
+     "decl count = GetCount()"; "if (capacity < count) { (capacity = count) }";
+     "if !Reallocate(capacity, capacity) { decl itemsCreator = LambdaExpr; Reset(capacity, count, itemsCreator) }"]%string /\
+  Gen_ArrayFacts.vector_insert_n = ["decl index = Dist(cbegin(), where)"; "Insert(index, count, value)"; "return Next(begin(), index)"]%string /\
+  Gen_ArrayFacts.vector_insert_copy = ["decl index = Dist(cbegin(), where)"; "Insert(index, value)"; "return Next(begin(), index)"]%string /\
+  Gen_ArrayFacts.vector_insert_move = ["decl index = Dist(cbegin(), where)"; "Insert(index, move(value))"; "return Next(begin(), index)"]%string /\
+  Gen_ArrayFacts.vector_erase_range = ["decl index = Dist(cbegin(), first)"; "Remove(index, Dist(first, last))"; "return Next(begin(), index)"]%string /\
+  Gen_ArrayFacts.vector_erase_one = ["return erase(where, (where + 1))"]%string /\
+  Gen_ArrayFacts.vector_push_back_copy = ["AddBack(value)"]%string /\ Gen_ArrayFacts.vector_push_back_move = ["AddBack(move(value))"]%string /\
+  Gen_ArrayFacts.vector_resize_value = ["SetCount(size, value)"]%string /\ Gen_ArrayFacts.vector_resize = ["SetCount(size)"]%string /\
+  Gen_ArrayFacts.vector_assign_n = ["operator=(mArray, ctor{count, value, ctor{get_allocator()}})"]%string /\
+  Gen_ArrayFacts.vector_reserve = ["Reserve(count)"]%string /\ Gen_ArrayFacts.vector_shrink_to_fit = ["Shrink()"]%string /\
+  Gen_ArrayFacts.vector_clear = ["Clear(CXXDefaultArgExpr)"]%string /\ Gen_ArrayFacts.vector_pop_back = ["RemoveBack(CXXDefaultArgExpr)"]%string.
+Proof. exact FactsProofs.facts_shape_forwards. Qed.
+Print Assumptions C05_facts_shape_forwards.
